@@ -395,6 +395,111 @@ def annotated_class(ctx, cls: ClassInfo, attr: str) -> Optional[ClassInfo]:
 
 
 # ---------------------------------------------------------------------------
+# ---------------------------------------------------------------------------
+# C17.A — a restore is complete on every path;  C17.O — a restore writes its own state only
+# ---------------------------------------------------------------------------
+def _load_functions(ctx):
+    out = []
+    for ci in sorted(ctx.classes.classes.values(), key=lambda c: c.qualname):
+        if '.cli.' in ci.qualname:
+            continue
+        for name in ('load_state_dict', '_load_state_dict'):
+            fn = ci.methods.get(name)
+            if fn is not None and not any((dotted_name(d) or '').endswith('abstractmethod') for d in fn.decorator_list):
+                out.append((ci, fn))
+    return out
+
+
+def check_restore_paths(ctx, rep):
+    """Every unconditional restoring statement of a load_state_dict (a store into self.… or a nested .load_state_dict(...) written at the top level of the method) lies on every
+    path from entry to a normal exit: an early `return` in front of it restores part of the state and silently starts the rest afresh."""
+    from sa.cfg import CFG
+    n = 0
+    for ci, fn in _load_functions(ctx):
+        cfg = CFG(fn)
+        tops = []
+        for st in fn.body:
+            restoring = False
+            if isinstance(st, (ast.Assign, ast.AugAssign)):
+                tg = st.targets if isinstance(st, ast.Assign) else [st.target]
+                restoring = any(isinstance(x, ast.Attribute) and self_attr(x) for t in tg for x in ast.walk(t))
+            elif isinstance(st, ast.Expr) and isinstance(st.value, ast.Call) and isinstance(st.value.func, ast.Attribute) and st.value.func.attr in ('load_state_dict', '_load_state_dict'):
+                restoring = True
+            if restoring:
+                tops.append(st)
+        for st in tops:
+            n += 1
+            try:
+                node = cfg.node_of(st)
+            except KeyError:
+                continue
+            ok = cfg.must_pass(cfg.entry, cfg.exit, [node])
+            rep.check('C17.A', f"{ci.qualname}.{fn.name}::{norm_text(st)[:50]}", ok, where(ci.module, st), None,
+                      f"{ci.name}.{fn.name} can return before `{norm_text(st)[:60]}`: on that path the checkpointed value is ignored and this part of the run state starts afresh, so "
+                      f"the resumed run does not continue the interrupted one")
+    if n < 20:
+        rep.incomplete('C17.A', '*', '', f"only {n} restoring statements found")
+
+
+def check_restore_ownership(ctx, rep):
+    """A load_state_dict writes into the object's own members.  A store `self.<member>.<field> = …` where <member> is an object that restores itself (its class has a
+    load_state_dict of its own) overwrites what that object's own restore installed with a value derived from this object's state — the order of the restores then decides
+    which one survives."""
+    stateful = {ci.qualname for ci, _ in _load_functions(ctx)}
+    names = {q.split('.')[-1] for q in stateful}
+    n = 0
+    from sa.members import Kinds
+    kinds = Kinds(ctx.classes)
+    for ci, fn in _load_functions(ctx):
+        for st in ast.walk(fn):
+            if not isinstance(st, (ast.Assign, ast.AugAssign)):
+                continue
+            tg = st.targets if isinstance(st, ast.Assign) else [st.target]
+            for t in tg:
+                if isinstance(t, ast.Attribute) and isinstance(t.value, ast.Attribute) and self_attr(t.value):
+                    member = self_attr(t.value)
+                    n += 1
+                    # class of the member: constructor annotation of the parameter it was assigned from
+                    mcls = None
+                    for c in ci.internal_mro():
+                        init = c.methods.get('__init__')
+                        if init is None:
+                            continue
+                        ann = {a.arg: ast.unparse(a.annotation) for a in init.args.args + init.args.kwonlyargs if a.annotation is not None}
+                        for s2 in ast.walk(init):
+                            if isinstance(s2, ast.Assign) and any(self_attr(x) == member for x in s2.targets) and isinstance(s2.value, ast.Name) and s2.value.id in ann:
+                                mcls = ann[s2.value.id].strip("'\"").split('.')[-1]
+                    foreign = mcls in names
+                    rep.check('C17.O', f"{ci.qualname}.{fn.name}::self.{member}.{t.attr}", not foreign, where(ci.module, st), {'member_class': mcls},
+                              f"{ci.name}.{fn.name} writes `{norm_text(st)[:60]}`: {member} is a {mcls}, which restores its own state from the checkpoint; this store replaces the "
+                              f"restored `{t.attr}` by a value recomputed from {ci.name}'s state (whichever restore runs last wins), so the resumed run can start from another "
+                              f"value than the one in use when the checkpoint was written")
+    rep.analysed['restore_member_field_stores'] = n
+    rep.ok('C17.O', 'load_state_dict::member-field-stores-examined', '', {'stores': n})
+
+
+def check_encoder_writes_tensor_as_is(ctx, rep):
+    """C17.E (addition) — the encoder writes a parameter's tensor with its own shape: the value under 'tensor' is `<obj>.tensor.tolist()` (or `<tensor>.tolist()`), not a
+    reshaped / flattened / at-least-1d copy: the decoder rebuilds the parameter with the written shape, and a 0-d parameter restored as [1] no longer matches optimiser state."""
+    n = 0
+    for m, cname, cnode in [(mm, cn, cd) for mm in (ctx.prog.module('torchtree.core.parameter_encoder'), ctx.prog.module('torchtree.core.utils')) for cn, cd in mm.classes.items()
+                            if cn.endswith('Encoder')]:
+        for fn in [b for b in cnode.body if isinstance(b, ast.FunctionDef) and b.name == 'default']:
+            for d in ast.walk(fn):
+                if not isinstance(d, ast.Dict):
+                    continue
+                for k, v in zip(d.keys, d.values):
+                    if isinstance(k, ast.Constant) and k.value in ('tensor', 'values'):
+                        n += 1
+                        as_is = isinstance(v, ast.Call) and isinstance(v.func, ast.Attribute) and v.func.attr == 'tolist' and not v.args and \
+                            (isinstance(v.func.value, ast.Name) or (isinstance(v.func.value, ast.Attribute) and v.func.value.attr == 'tensor' and isinstance(v.func.value.value, ast.Name)))
+                        rep.check('C17.E', f"{cname}.default::'{k.value}'-written-with-its-own-shape", as_is, where(m, v), {'written': norm_text(v)[:80]},
+                                  f"{cname}.default writes `{norm_text(v)[:60]}` under '{k.value}': the tensor is reshaped on the way out, the restored parameter has another shape than the "
+                                  f"checkpointed one (state of the optimiser / operators no longer matches it)")
+    if n < 2:
+        rep.incomplete('C17.E', 'encoders::tensor-written-as-is', '', f"only {n} tensor entries found in the encoders")
+
+
 def run(ctx, rep):
     rep.explanation = (
         "Writer/reader cross-check of every state_dict/load_state_dict pair (resolved along the MRO; base and "
@@ -438,6 +543,11 @@ def run(ctx, rep):
     check_constructor_restores(ctx, rep, concrete)
     check_main_order(ctx, rep)
     check_iteration_counter(ctx, rep)
+    rep.rule('C17.A', "every unconditional restoring statement of a load_state_dict lies on every path to a normal exit (no early return leaves part of the state at its fresh value)")
+    rep.rule('C17.O', "a load_state_dict does not overwrite a field of a member object that restores itself from the checkpoint")
+    check_restore_paths(ctx, rep)
+    check_restore_ownership(ctx, rep)
+    check_encoder_writes_tensor_as_is(ctx, rep)
 
 
 # ---------------------------------------------------------------------------
